@@ -354,6 +354,24 @@ def check_extension(res):
                           {"extension": when},
                           f"[{when}] after `class Sub(Base)` extended Base.s1 with a new transition, "
                           f"a Base instance in s1 shows {st}, expected {want}")
+        # the value of the state added by the subclass is not a state value of the base class
+        from statemachine.exceptions import InvalidStateValue
+        res.stats["evaluations"] += 1
+        probe = base()
+        try:
+            probe.current_state_value = "s3"
+            got = f"accepted (current_state_value is now {probe.current_state_value!r})"
+        except InvalidStateValue:
+            got = None
+        except Exception as e:   # noqa: BLE001
+            got = f"raised {type(e).__name__}: {e}"
+        if got is None and ("s3" in base.states_map or len(base.states_map) != 3):
+            got = f"Base.states_map now has the keys {sorted(map(str, base.states_map))}"
+        if got:
+            res.violation({"category": "base-accepts-subclass-state-value"},
+                          {"extension": when, "probe": "value"},
+                          f"[{when}] after `class Sub(Base)` added the state s3, writing the value "
+                          f"'s3' to a Base instance: {got}; expected InvalidStateValue")
         # the subclass itself must work
         sub = ns["Sub"]()
         sub.send("go")
